@@ -13,7 +13,7 @@
    pointers: the bridge is the section "chop" below together with the theorems of TrUc.v about uc_slen / uc_chr /
    uc_next and of TrUcTab.v about uc_isspace / uc_kind. *)
 From Coq Require Import List ZArith NArith Bool Lia.
-From NV Require Import Bytes UcDefs CLite CLiteProps GenCFuncs CLiteTac TrLbufBase TrUcCode TrUc TrUcTab MotDefs.
+From NV Require Import Bytes UcDefs CLite CLiteProps GenCFuncs CLiteTac TrLbufBase TrUcCode TrUc TrUcClass MotDefs.
 Import ListNotations.
 Local Open Scope Z_scope.
 
@@ -597,8 +597,9 @@ Lemma next_call m lb bln lbs lines br bo r o dir d fuel : mot_mem m lb bln lbs l
   = let '(s, r', o') := lbuf_next (map chop lines) dir r o in Ok (st_val s, set_pos m br bo r' o').
 Proof.
   intros [R Hl Hne Nr No Lr Lo] Hsm Hf Hr Ho [Pr Po] Hd.
-  apply (tr_lbuf_next m lb bln lbs lines br bo r o dir d fuel); try assumption; try (intro H; first [apply Nr|apply No]; right; exact H);
-    unfold i32; destruct Hd as [-> | ->]; lia.
+  apply (tr_lbuf_next m lb bln lbs lines br bo r o dir d fuel);
+    [exact R|exact Hsm|exact Hf|exact Hr|exact Ho|exact Hne|intro H; apply Nr; right; exact H|intro H; apply No; right; exact H
+    |unfold i32; lia|unfold i32; lia| | | ]; unfold i32; destruct Hd as [-> | ->]; lia.
 Qed.
 
 (* ------------------------------------------------------------------ lbuf_wordlast *)
@@ -650,4 +651,29 @@ Proof.
       pose proof (lbuf_next_pos_ok lines dir r o _ _ _ Hsm (la_nonul _ _ _ _ _ R) Hd (conj Pr Po) En) as Hp1.
       specialize (IH (set_pos m br bo r1 o1) r1 o1 fuel res MM1 Hr1 Ho1 Hp1 ltac:(lia) ltac:(lia) Hres).
       destruct res as [[s r'] o']. rewrite set_pos_set_pos in IH by assumption. exact IH.
+Qed.
+
+Theorem tr_lbuf_wordlast m lb bln lbs lines br bo kind dir r o mf res d fuel :
+  mot_mem m lb bln lbs lines br bo -> lines_small lines -> cell_at m br r -> cell_at m bo o -> pos_ok r o -> dir_ok dir ->
+  lbuf_wordlast mf (map chop lines) kind dir r o = Some res -> (mf < fuel)%nat -> (maxlen lines < fuel)%nat ->
+  callf cprog fuel (S (S (S (S (S d))))) F_lbuf_wordlast [VPtr lb 0; VInt (Z.of_N kind); VInt dir; VPtr br 0; VPtr bo 0] m
+  = let '(s, r', o') := res in Ok (st_val1 s, set_pos m br bo r' o').
+Proof.
+  intros MM Hsm Hr Ho Hp Hd Hres Hmf Hf. pose proof MM as [R Hl Hne Nr No Lr Lo]. pose proof Hp as [Pr Po].
+  set (b := map chop lines) in *. unfold lbuf_wordlast, kmatch in Hres.
+  enter F_lbuf_wordlast cf_lbuf_wordlast. rewrite exec_seq.
+  (let t := eval cbv [wl_loop fn_body cf_lbuf_wordlast] in wl_loop in change t with wl_loop).
+  (let t := eval cbv [wl_rest fn_body cf_lbuf_wordlast] in wl_rest in change t with wl_rest).
+  remember wl_loop as wl eqn:Ewl. remember wl_rest as wr eqn:Ewr.
+  xstep. destruct (N.eqb_spec kind 0) as [->|Hk].
+  { cbn [Z.of_N Z.eqb negb b2z]. xstep. cbn [orb] in Hres. injection Hres as <-. rewrite (set_pos_self m br bo r o Hr Ho). reflexivity. }
+  replace (Z.of_N kind =? 0) with false by (symmetry; apply Z.eqb_neq; lia). cbn [negb b2z]. xstep.
+  rd_chr R Hsm Hf Hr Ho Pr Po d.
+  rewrite (kind_at m lb bln lbs lines r o (S (S d)) fuel R Hl). xstep. fold b. rewrite land_test.
+  cbn [orb] in Hres.
+  destruct (N.land (kindof b r o) kind =? 0)%N eqn:Ek; cbn [negb] in Hres |- *; xstep.
+  { injection Hres as <-. rewrite (set_pos_self m br bo r o Hr Ho). reflexivity. }
+  subst wl wr.
+  rewrite (wl_loop_ok fuel d lb bln lbs lines br bo kind dir fuel Hsm Hf Hd mf m r o fuel res MM Hr Ho Hp Hmf ltac:(lia) Hres).
+  destruct res as [[s r'] o']. reflexivity.
 Qed.
